@@ -289,4 +289,6 @@ def absorb(check, results):
         for k, v in (r.get("obs") or {}).items():
             check.observe(k, v)
         for sig, bundle in r.get("fails", ()):
+            if isinstance(sig, dict) and sig.get("kind") == "library-hung":
+                check.hung = True           # genrun.run_config does not start further configurations after a hang
             check.violation(sig, bundle)
